@@ -7,3 +7,4 @@ import Gomjml.Props.C09
 #print axioms Gomjml.Props.C09.C09_written_reads
 #print axioms Gomjml.Props.C09.C09_no_read_past_resolvers
 #print axioms Gomjml.Props.C09.C09_css_class
+#print axioms Gomjml.Props.C09.C09_store_is_last_definition
